@@ -531,6 +531,7 @@ pub struct HistOpts {
     pub clean_pct: usize,
     pub fail_pct: usize,
     pub corrupt_pct: usize,
+    pub io_fault_pct: usize,
 }
 
 pub fn gen_history(rng: &mut Rng, o: &HistOpts) -> Scenario {
@@ -569,6 +570,12 @@ pub fn gen_history(rng: &mut Rng, o: &HistOpts) -> Scenario {
                 let t = rng.pick(&clo);
                 inv.plan.faults.push(Fault { site: format!("proc.exit:{}", sc.sim_id(t.0, &t.1)), occurrence: 1, kind: "exit=1".into() });
             }
+        }
+        if rng.chance(o.io_fault_pct) {
+            // an I/O error on one of zinoma's own file-system calls (never on the scripts')
+            let site = *rng.pick(&["fs.metadata", "fs.metadata", "fs.open", "fs.file-read", "fs.remove_file", "fs.create_dir"]);
+            let kind = if site == "fs.file-read" && rng.chance(50) { "short" } else { "eio" };
+            inv.plan.faults.push(Fault { site: site.into(), occurrence: rng.range(1, 12) as u32, kind: kind.into() });
         }
         sc.steps.push(Step::Invoke(inv));
         if k + 1 < ninv {
@@ -656,7 +663,7 @@ impl Property for C02 {
         vec!["mtimes of workload and script writes come from the simulator's logical clock (one tick per write)", "race-free layouts: a file is written by at most one target"]
     }
     fn generate(&self, rng: &mut Rng, _case: u64) -> Scenario {
-        gen_history(rng, &HistOpts { io: IoOpts::default(), max_invocations: 5, edit_pct: 85, touch_only: false, vary_entry: false, clean_pct: 5, fail_pct: 8, corrupt_pct: 8 })
+        gen_history(rng, &HistOpts { io: IoOpts::default(), max_invocations: 5, edit_pct: 85, touch_only: false, vary_entry: false, clean_pct: 5, fail_pct: 8, corrupt_pct: 8, io_fault_pct: 12 })
     }
     fn evaluate(&self, sc: &Scenario, root: &Path, stats: &mut Stats) -> Option<Violation> {
         let v = eval_history(sc, root, stats, Some(Which::Sound), any_target, None, nontrivial_decision);
@@ -682,7 +689,7 @@ impl Property for C03 {
         "one case = 1-3 generated projects (shared resources, identical command text and identical relative paths in different project directories, X.output across projects) and a history of 2-5 invocations over an untouched tree (different requested sets and spellings; the only edits are touch-only, content identical). Oracle: a target that declares inputs, has a definite model record and whose declared resources are content-equal to that record must not have its script started; a target without inputs must never be skipped. distinct_nontrivial = distinct order hashes among invocations in which a target with a model record was evaluated"
     }
     fn generate(&self, rng: &mut Rng, _case: u64) -> Scenario {
-        gen_history(rng, &HistOpts { io: IoOpts { multi_project_pct: 60, max_targets: 6, cmd_pct: 35 }, max_invocations: 4, edit_pct: 40, touch_only: true, vary_entry: false, clean_pct: 0, fail_pct: 18, corrupt_pct: 0 })
+        gen_history(rng, &HistOpts { io: IoOpts { multi_project_pct: 60, max_targets: 6, cmd_pct: 35 }, max_invocations: 4, edit_pct: 40, touch_only: true, vary_entry: false, clean_pct: 0, fail_pct: 18, corrupt_pct: 0, io_fault_pct: 0 })
     }
     fn evaluate(&self, sc: &Scenario, root: &Path, stats: &mut Stats) -> Option<Violation> {
         eval_history(sc, root, stats, Some(Which::Complete), any_target, None, nontrivial_decision)
@@ -707,7 +714,7 @@ impl Property for C13 {
         "one case = producer/consumer layout over 1-3 projects (chains, several producers, producers in imported projects at other directories, identical relative paths and command texts in different projects) + history of invocations and edits biased to the producers' outputs and sources. Oracle (both directions, consumers of X.output only): the consumer's decision equals the model's decision with the producer's output resources - files with their extension filter, commands evaluated in the producer's directory - appended to its inputs. Producer-first ordering is C01's oracle. distinct_nontrivial = distinct order hashes among invocations where a consumer with a model record was evaluated"
     }
     fn generate(&self, rng: &mut Rng, _case: u64) -> Scenario {
-        gen_history(rng, &HistOpts { io: IoOpts { multi_project_pct: 70, max_targets: 6, cmd_pct: 35 }, max_invocations: 4, edit_pct: 70, touch_only: false, vary_entry: false, clean_pct: 0, fail_pct: 0, corrupt_pct: 0 })
+        gen_history(rng, &HistOpts { io: IoOpts { multi_project_pct: 70, max_targets: 6, cmd_pct: 35 }, max_invocations: 4, edit_pct: 70, touch_only: false, vary_entry: false, clean_pct: 0, fail_pct: 0, corrupt_pct: 0, io_fault_pct: 0 })
     }
     fn evaluate(&self, sc: &Scenario, root: &Path, stats: &mut Stats) -> Option<Violation> {
         eval_history(sc, root, stats, Some(Which::Both), consumer_only, None, |sc, c, had| had && c.clo.iter().any(|t| consumer_only(sc, t)))
@@ -732,7 +739,7 @@ impl Property for C18 {
         "one case = 2-3 projects + a history of 2-5 invocations with different requested targets, different entry projects (-p the root or an imported project's own directory), --clean T for some targets, failing other targets, interleaved with edits. Oracle (both directions): each target's decision equals the model's decision computed from that target's own declared resources and its own last successful completion only. distinct_nontrivial = distinct order hashes among invocations where a target with a model record was evaluated"
     }
     fn generate(&self, rng: &mut Rng, _case: u64) -> Scenario {
-        gen_history(rng, &HistOpts { io: IoOpts { multi_project_pct: 85, max_targets: 6, cmd_pct: 20 }, max_invocations: 5, edit_pct: 50, touch_only: false, vary_entry: true, clean_pct: 20, fail_pct: 20, corrupt_pct: 0 })
+        gen_history(rng, &HistOpts { io: IoOpts { multi_project_pct: 85, max_targets: 6, cmd_pct: 20 }, max_invocations: 5, edit_pct: 50, touch_only: false, vary_entry: true, clean_pct: 20, fail_pct: 20, corrupt_pct: 0, io_fault_pct: 0 })
     }
     fn evaluate(&self, sc: &Scenario, root: &Path, stats: &mut Stats) -> Option<Violation> {
         eval_history(sc, root, stats, Some(Which::Both), any_target, None, nontrivial_decision)
@@ -976,7 +983,7 @@ impl Property for C12 {
         vec!["a declared output path that is itself a symbolic link is not generated (DESIGN.md §7 C12 workload boundary)"]
     }
     fn generate(&self, rng: &mut Rng, _case: u64) -> Scenario {
-        let mut sc = gen_history(rng, &HistOpts { io: IoOpts { multi_project_pct: 50, max_targets: 5, cmd_pct: 10 }, max_invocations: 4, edit_pct: 30, touch_only: false, vary_entry: false, clean_pct: 70, fail_pct: 0, corrupt_pct: 0 });
+        let mut sc = gen_history(rng, &HistOpts { io: IoOpts { multi_project_pct: 50, max_targets: 5, cmd_pct: 10 }, max_invocations: 4, edit_pct: 30, touch_only: false, vary_entry: false, clean_pct: 70, fail_pct: 0, corrupt_pct: 0, io_fault_pct: 0 });
         // decorate output locations
         let mut extra = vec![];
         for p in &sc.projects {
